@@ -106,7 +106,7 @@ def run(ck, m):
     ck.expect(len(ys) == 1, "content: the image-row yield not found")
     if ys:
         def role(e):
-            t_ = norm(trace(ct, e.value if isinstance(e, ast.Starred) else e, keep=("size", "image_size")))
+            t_ = norm(trace(ct, e.value if isinstance(e, ast.Starred) else e, use=ys[0], keep=("size", "image_size")))
             if "SGR_DEFAULT_b" in t_:
                 return "color_reset"
             key = "b' ' * self._ti_calc_trim(size[0]"
@@ -123,6 +123,13 @@ def run(ck, m):
                 return {"[0]": "left_padding", "[3]": "right_padding"}.get(idx, "image_line")
             if t_.replace(" ", "") in ("((None,'U',b'\\x00\\x00'),)", "(None,'U',b'\\x00\\x00')"):
                 return "last_row_workaround"
+            # bound under the condition the rows are produced under (`W if <image not empty> else <unbound here>`): the alternatives that are bound
+            te_ = trace(ct, e.value if isinstance(e, ast.Starred) else e, use=ys[0], keep=("size", "image_size"))
+            def _alts(x_):
+                return _alts(x_.body) + _alts(x_.orelse) if isinstance(x_, ast.IfExp) else [x_]
+            al_ = [a_ for a_ in _alts(te_) if not (isinstance(a_, ast.Name) and a_.id == (norm(e.value) if isinstance(e, ast.Starred) else norm(e)))]
+            if al_ and all(norm(a_).replace(" ", "") in ("((None,'U',b'\\x00\\x00'),)", "(None,'U',b'\\x00\\x00')") for a_ in al_):
+                return "last_row_workaround"
             return "image_line"
         order = [role(e) for e in ys[0].value.elts]
         ck.ob("R2", enclosing_stmt(ys[0]), order == ["left_padding", "image_line", "color_reset", "right_padding", "last_row_workaround"],
@@ -137,7 +144,21 @@ def run(ck, m):
     if not tups:   # the element is bound in several branches: look at the bindings of that name
         nm_ = img_el.id if isinstance(img_el, ast.Name) else None
         tups = [n for st_ in walk_local(text_if) if isinstance(st_, ast.Assign) and nm_ and norm(st_.targets[0]) == nm_ for n in ast.walk(st_.value) if isinstance(n, ast.Tuple) and len(n.elts) == 2 and isinstance(n.elts[0], ast.Starred)]
-    ck.ob("R2", text_if, bool(tups) and all(match_expr("(None, 'U', $x)", t_.elts[1]) is not None for t_ in tups), "the recovered first colour must precede the image cells", stmt="content: first colour before the image cells")
+    if tups:
+        ck.ob("R2", text_if, all(match_expr("(None, 'U', $x)", t_.elts[1]) is not None for t_ in tups), "the recovered first colour must precede the image cells", stmt="content: first colour before the image cells")
+    else:
+        # explicit tuples per case (`(colour, cells)` / `(cells,)`): by content - the element that carries the recovered colour (`...rindex(b'm')`) comes before
+        # the one that carries the visible cells (`b''.join(...)`) wherever both occur, and some case does carry the colour
+        nm_ = img_el.id if isinstance(img_el, ast.Name) else None
+        binds_ = [st_ for st_ in walk_local(text_if) if isinstance(st_, ast.Assign) and nm_ and norm(st_.targets[0]) == nm_ and isinstance(st_.value, ast.Tuple)]
+        def _kind(e_, st_):
+            t_ = norm(trace(ct, e_.value if isinstance(e_, ast.Starred) else e_, use=st_, keep=("size", "image_size")))
+            return "colour" if "rindex(b'm')" in t_ and ".join(" not in t_ else ("cells" if ".join(" in t_ or ".replace(b'\\x00'" in t_ else "other")
+        orders_ = [[_kind(e_, st_) for e_ in st_.value.elts] for st_ in binds_]
+        ck.expect(bool(binds_) and any("colour" in o_ for o_ in orders_), "content: where the recovered first colour joins the image cells is not recognised")
+        if binds_ and any("colour" in o_ for o_ in orders_):
+            bad_ = [o_ for o_ in orders_ if "colour" in o_ and "cells" in o_ and o_.index("colour") > o_.index("cells")]
+            ck.ob("R2", text_if, not bad_, f"the recovered first colour must precede the image cells; found the order {bad_[0] if bad_ else ''}", stmt="content: first colour before the image cells")
     scan, cv = None, "cell"
     for n in walk_local(text_if):
         if isinstance(n, ast.For) and isinstance(n.target, ast.Name) and match_expr("$l[trim_image_left - 1::-1]", n.iter) is not None:
